@@ -3,9 +3,9 @@ from props_common import *
 PROP = dict(
     title="Sparse Merkle root depends only on the final key-value map",
     family="smt", harness="smt", run_vo="Run/Smt.vo",
-    theorems=["C12_fun", "C12_extensional", "C12_order_independent", "C12_fun_lookup", "C12_refine",
+    theorems=["C12_fun", "C12_extensional", "C12_order_independent", "C12_fun_lookup", "C12_refine", "C12_from_set",
               "C12_msb_get_bit", "C12_msb_common_prefix", "C12_msb_roundtrip"],
-    open_statements=["C12_from_set_full_statement: from_set / root_from_set / nodes_from_set of the L1 model return the spec root of the map the set denotes (not proved; covered by the correspondence run — roots, storage size, exact node list — and by the harness reference-root oracle)"],
+    open_statements=[],
     translators=[],
     quick_shards=8,
     trusted_base=[SHA_NOTE,
@@ -14,7 +14,7 @@ PROP = dict(
                   "from_set/root_from_set/nodes_from_set roots and the exact node list of nodes_from_set)",
                   "Merkle/SparseSpec.v: definition of the compact sparse Merkle root of a finite map (what the theorems mean)"],
     assumptions=["C12_fun, C12_extensional, C12_order_independent, C12_fun_lookup: no hash assumption (equalities of hash expressions)",
-                 "C12_refine (L1 model of the Rust algorithm): the premises bundled in smt_iface — decidable digest equality, kbit/kcpl read the bits/common prefix of keys, "
+                 "C12_refine and C12_from_set (L1 model of the Rust algorithm; C12_from_set additionally: kcmp is the lexicographic order on key bits): the premises bundled in smt_iface — decidable digest equality, kbit/kcpl read the bits/common prefix of keys, "
                  "of_bits/bits inverse on 256-bit keys, and collision-freeness hash_ok of the leaf/node hashes (the code chooses a child side and removes stale nodes by comparing digests); satisfiable: Merkle/SparseInst.v lb_iface"],
     rule=("histories of <= 60 insert/overwrite/delete operations over adversarial key pools (keys sharing prefixes of 0,1,7,8,9,127,254,255 bits, "
           "all-zero / all-one keys, last-bit siblings, nested deep chains), empty values, overwrite with the same value, delete of absent keys; root after "
@@ -26,11 +26,10 @@ PROP = dict(
                 "Merkle root of the map the history leaves behind, that this root depends only on the lookup function of the map (order independence), and that (L1) the "
                 "function-by-function model of the Rust code — hash-addressed node store, PathIter/path_set, update_with_path_set with leaf merge and placeholder chain, "
                 "delete_with_path_set with orphan-leaf collapse — refines the functional tree for every history (C12_refine, under collision-freeness as explicit premise); "
-                "the model is tied to the code by a differential run on every check; from_set/root_from_set/nodes_from_set are modelled and tied by correspondence, their "
-                "refinement is listed as open"),
+                "and that from_set / root_from_set / nodes_from_set (sort with last-duplicate-wins, three-node-window merge, merge_branches) return the spec root of the "
+                "set's map with all nodes stored (C12_from_set); the model is tied to the code by a differential run on every check"),
     level_note=("Trusted: Coq kernel; the hand-written L1 model tied to the Rust code by correspondence testing (testing, not proof); executable SHA-256 instance; harness; "
-                "the interface premises of C12_refine (smt_iface incl. collision-freeness). The from_set family (three-node-window merge, merge_branches) is NOT proved: "
-                "its link to the spec rests on the correspondence run (incl. the exact node list of nodes_from_set) and the independent reference root in the harness."),
+                "the interface premises of C12_refine / C12_from_set (smt_iface incl. collision-freeness; key order = lexicographic on bits)."),
     technique="Coq proof by induction on tree depth (canonical-tree representation lemma) + differential model/impl run with independent reference root",
     design_ref="6/C12",
 )
